@@ -47,6 +47,14 @@ def change_asset(a, k, prices, memo):
                 a[key] = a[key] * k
         if a.get('max_store_duration') is not None:
             a['max_store_duration'] = a['max_store_duration'] / k
+    elif kind == 'Plant':
+        # rates per main time unit; run / down times are durations in the main time unit (start costs are amounts)
+        for key in ('min_cap', 'max_cap'):
+            if key in a:
+                a[key] = scale_param(a[key], k, prices, memo)
+        for key in ('min_runtime', 'min_downtime', 'time_already_running', 'time_already_off'):
+            if key in a:
+                a[key] = a[key] / k
     elif kind == 'OrderBook':
         a['orders']['capa'] = [c * k for c in a['orders']['capa']]
     elif kind == 'ScaledAsset':
@@ -149,12 +157,23 @@ def run(ctx):
     for sp in spl:
         sp['opts']['split'] = {'h': '3h', '30min': '2h'}[sp['grid']['freq']]
     specs += spl
+    # plants (unit commitment): minimum run / down times and the time already running / off are durations in the main time unit
+    # (described in hours, re-expressed in minutes: exact in floating point)
+    pl = gen.gen_many_plants(ctx.seed, n // 3, dict(CFG, freqs=['h', '30min', '15min'], units=['h'], tzs=[None], T=(5, 9), p_unaligned_end=0.0, p_profile=0.0, p_fuel=0.0, p_chp=0.0,
+                                                    p_coarse=0.0, p_periodic=0.0, p_cap_dict=0.0), 'c12p_')
+    for sp in pl:
+        for a in sp['assets']:
+            if a['kind'] == 'Plant':
+                for key in ('ramp', 'last_dispatch', 'running_costs'):
+                    a.pop(key, None)
+        sp['opts']['new_unit'] = 'min'
+    specs += [sp for sp in pl if all(a['kind'] != 'Storage' or True for a in sp['assets'])]
     specs = ctx.specs(specs)
     base = [sp for sp in specs if '+' not in sp['id']]
     variants = []
     for sp in base:
         rng = random.Random(str(sp['seed']) + '/unit')
-        nu = rng.choice([u for u in UNITS if u != sp['grid'].get('unit', 'h')])
+        nu = sp['opts'].get('new_unit') or rng.choice([u for u in UNITS if u != sp['grid'].get('unit', 'h')])
         variants.append(change_unit(sp, nu))
     allspecs = base + [v[0] for v in variants]
     res = C.run_impl('portfolio', allspecs)
